@@ -478,12 +478,19 @@ def make_queries(ctx, progs, modes, harness_fn, known_keys=(), timeout=120, jobs
     from concurrent.futures import ThreadPoolExecutor
     occa_bin(ctx)
     rejected = []; qs = []
+    # write every program text BEFORE the worker threads start: two modes of one program run concurrently, and a worker
+    # that finds the file existing but still empty would hand occa an empty program ("No [@kernel] functions found")
+    for prog in progs:
+        d0 = os.path.dirname(ctx.path('prog', prog.name, 'x'))
+        op0 = os.path.join(d0, prog.name + '.okl')
+        if not os.path.exists(op0):
+            with open(op0 + '.tmp', 'w') as f:
+                f.write(prog.okl)
+            os.replace(op0 + '.tmp', op0)
     def one(pm):
         prog, mode = pm
         d = ctx.path('prog', prog.name, 'x'); d = os.path.dirname(d)
         op = os.path.join(d, prog.name + '.okl')
-        if not os.path.exists(op):
-            open(op, 'w').write(prog.okl)
         try:
             tr, info = build_mode_source(ctx, op, prog.okl, mode, prog.cap)
         except ValueError as ex:
